@@ -25,8 +25,8 @@ func init() {
 	register(&Property{
 		ID:      "C03",
 		NeedSSA: true,
-		Decided: "Narrow structural necessary conditions only: (nullwidth) every width-specific null scanner nullIndex<T> of the typed ingestion path scans elements of the width of T (it calls the kernel named after 8·sizeof(T) or the generic scanner instantiated with T), in every build configuration; (nullkinds) the reflection path decides `null` for pointer-like kinds (pointer, map, slice, interface) by IsNil, like the typed path's pointer test, never by length or zero-ness; (siblings) the entry points that shred through a shared implementation hand it the same set of level fields (composite literals passed to one callee set the same keys); (mapscratch) the map re-assembly clears its scratch element after each entry; (dispatch) the node-shape dispatchers of the typed, reflection and row paths test the same predicates (optional, repeated, list, map) in the same order. (appendalias) inside a loop, a slice built by appending to a base slice that is the same on every iteration (a parameter not always passed clipped, a field, a value computed before the loop) is not retained unless the base's capacity was clipped: retained slices would share the base's spare capacity.",
-		NotDecided: "the level values themselves, null-bitmap scanning, batch boundaries, struct field offsets of embedded structs, ordering of map keys — value-dependent.",
+		Decided: "Narrow structural necessary conditions only: (nullwidth) every width-specific null scanner nullIndex<T> of the typed ingestion path scans elements of the width of T (it calls the kernel named after 8·sizeof(T) or the generic scanner instantiated with T), in every build configuration; (nullkinds) the reflection path decides `null` for pointer-like kinds (pointer, map, slice, interface) by IsNil, like the typed path's pointer test, never by length or zero-ness; (siblings) the entry points that shred through a shared implementation hand it the same set of level fields (composite literals passed to one callee set the same keys); (mapscratch) the map re-assembly clears its scratch element after each entry; (dispatch) the node-shape dispatchers of the typed, reflection and row paths test the same predicates (optional, repeated, list, map) in the same order. (appendalias) inside a loop, a slice built by appending to a base slice that is the same on every iteration (a parameter not always passed clipped, a field, a value computed before the loop) is not retained unless the base's capacity was clipped: retained slices would share the base's spare capacity. (accum) a recursive walk (schema tree, embedded structs) that adds to an integer parameter — column index, level, byte offset — passes, at every recursive call, an argument computed from that parameter (through arithmetic, conversions, calls that received it, maps filled with it, and the reaching definitions of local struct fields), so the running number is not restarted at a nested level.",
+		NotDecided: "the level values themselves, null-bitmap scanning, batch boundaries, the amounts added to offsets and indexes, ordering of map keys — value-dependent.",
 		Assumptions: []string{"see DESIGN.md §4 C03"},
 		Run:         runC03,
 	})
@@ -49,7 +49,7 @@ func init() {
 	register(&Property{
 		ID:      "C12",
 		NeedSSA: true,
-		Decided: "Narrow structural necessary conditions only: (polarity) the order-sensitive schema comparison recurses with the order-sensitive comparison and the order-insensitive one with itself; (insert) copyRows consults the schema comparison before it takes any fast path that bypasses conversion (RowWriterTo / RowReaderFrom), and inserts the conversion on the unequal edge; (adjacent) the choice of a sibling column to mirror for an added column compares repetition depth as well as the parent path; (errors) errors of Convert and of conversions are not dropped or swallowed; (convertvalue) ConvertValue of every physical type dispatches over every source kind or fails loudly; (marker) converted row groups never take chunk-level fast paths (C11.marker). (wrapper) every Page implementation that wraps another Page returns a value of its own type from Slice.",
+		Decided: "Narrow structural necessary conditions only: (polarity) the order-sensitive schema comparison recurses with the order-sensitive comparison and the order-insensitive one with itself; (insert) copyRows consults the schema comparison before it takes any fast path that bypasses conversion (RowWriterTo / RowReaderFrom), and inserts the conversion on the unequal edge; (adjacent) the choice of a sibling column to mirror for an added column compares repetition depth as well as the parent path; (errors) errors of Convert and of conversions are not dropped or swallowed; (convertvalue) ConvertValue of every physical type dispatches over every source kind or fails loudly; (marker) converted row groups never take chunk-level fast paths (C11.marker). (wrapper) every Page implementation that wraps another Page returns a value of its own type from Slice. (mergeconv) MergeRowGroups never returns a bare multi-row-group over converted inputs. (sortprefix) a loop that copies sorting columns one by one under a condition stops at the first column it rejects: the rejecting branch does not come back to the loop header, so the result is a prefix of the declared order.",
 		NotDecided: "level remapping and value equality through a conversion; behaviour on incompatible targets beyond the presence of an error path.",
 		Assumptions: []string{"see DESIGN.md §4 C12"},
 		Run:         runC12,
@@ -186,6 +186,10 @@ var nullWidth = map[string]int64{"Bool": 1, "Int": 8, "Int8": 1, "Int16": 2, "In
 func runC03(c *Ctx) {
 	// field index / column path slices built per struct field do not share spare capacity
 	runAppendAliasRule(c, "C03.appendalias", func(fn *ssa.Function) bool { return inModule(fn) }, 40)
+	runAccumRule(c, "C03.accum", func(fn *ssa.Function) bool {
+		return inModule(fn) && !strings.Contains(fnPkgPath(fn), "/internal/quick")
+	})
+	c.Min("C03.accum", 15)
 	p := c.P
 	rule := "C03.nullwidth"
 	sizes := types.SizesFor("gc", c.P.Config.GOARCH)
@@ -572,6 +576,7 @@ func runC12(c *Ctx) {
 	// MergeRowGroups converts every input to the merged schema; values are
 	// converted by the Rows() of the converted row groups, so the result must
 	// not be a bare multi-row-group (whose Rows() reads the flattened chunks)
+	runPrefixFilterRule(c, "C12.sortprefix", 1)
 	if obj := c.P.LookupFunc("MergeRowGroups"); c.Anchor("C12.mergeconv", "MergeRowGroups", obj != nil) {
 		fn := c.P.SSAFunc(obj)
 		var bad []string
